@@ -27,20 +27,40 @@ func (m *Model) RunRegistry(s *Sink, rule string) {
 	// (1) check-then-insert on the same map and key
 	for _, fn := range r.Registry {
 		fk := fnKey(fn)
+		// the store may be in the function itself or in a helper it delegates to (the table, name and function passed
+		// as arguments): values are resolved along the call chain
 		var upd *ssa.MapUpdate
-		for _, b := range fn.Blocks {
-			for _, in := range b.Instrs {
-				if mu, ok := in.(*ssa.MapUpdate); ok && isCustomFuncMap(mu.Map.Type()) {
-					upd = mu
-				}
+		var updResolve func(ssa.Value) ssa.Value
+		updDepth := 0
+		m.walkInlined(fn, 2, func(in ssa.Instruction, resolve func(ssa.Value) ssa.Value, depth int) {
+			if mu, ok := in.(*ssa.MapUpdate); ok && isCustomFuncMap(mu.Map.Type()) {
+				upd, updResolve, updDepth = mu, resolve, depth
 			}
-		}
+		})
 		if upd == nil {
 			s.Violation(rule, fk+"|stores the function", m.Pos(fn.Pos()), "%s never stores the function into a registry map: the registered function is not callable", fk)
 			continue
 		}
-		a := m.NewArith(fn)
-		mapPath := fieldPathOf(upd.Map)
+		owner := upd.Parent()
+		a := m.NewArith(owner)
+		same := func(x, y ssa.Value) bool {
+			rx, ry := updResolve(x), updResolve(y)
+			return rx == ry || a.canonKey(rx) == a.canonKey(ry)
+		}
+		mapPath := fieldPathOf(updResolve(upd.Map))
+		if updDepth > 0 {
+			// the helper's verdict must be what the registration function returns, and the function stored must be the one given
+			for _, b := range fn.Blocks {
+				if ret, ok := b.Instrs[len(b.Instrs)-1].(*ssa.Return); ok && len(ret.Results) == 1 {
+					if c, isC := ret.Results[0].(*ssa.Call); !isC || c.Call.StaticCallee() != owner {
+						s.Violation(rule, fk+"|returns the helper's verdict", m.InstrPos(ret), "%s delegates the registration to %s but does not return its result on every path", fk, fnKey(owner))
+					}
+				}
+			}
+			if _, isPar := stripIface(updResolve(upd.Value)).(*ssa.Parameter); !isPar {
+				s.Violation(rule, fk+"|stores the given function", m.InstrPos(upd), "the value stored by %s is not the function passed to %s", fnKey(owner), fk)
+			}
+		}
 		guarded := false
 		for _, f := range expandFacts(factsAt(upd.Block())) {
 			ex, ok := f.Cond.(*ssa.Extract)
@@ -51,7 +71,7 @@ func (m *Model) RunRegistry(s *Sink, rule string) {
 			if !ok || !lk.CommaOk {
 				continue
 			}
-			if fieldPathOf(lk.X) == mapPath && a.canonKey(lk.Index) == a.canonKey(upd.Key) {
+			if (same(lk.X, upd.Map) || fieldPathOf(updResolve(lk.X)) == mapPath && mapPath != "") && same(lk.Index, upd.Key) {
 				guarded = true
 				// hit edge must return a non-nil error without storing
 				hit := hitBlock(ex)
@@ -89,7 +109,7 @@ func (m *Model) RunRegistry(s *Sink, rule string) {
 	}
 	// (2) who may write the registry
 	regSet := map[*ssa.Function]bool{}
-	for _, fn := range r.Registry {
+	for _, fn := range m.helpersOfSet(r.Registry) { // the registration functions and the helpers only they call
 		regSet[fn] = true
 	}
 	nw := 0
